@@ -404,7 +404,170 @@ def r01_4(ctx: Ctx, rep: Report) -> None:
         rep.violation("helpers.init_ace_action", "accepted actions", "an ACE action is one of permit, deny", where(ia))
 
 
+TYPE_GUARDS = {
+    "any": ("/0", "the whole address space: str(ipnet) == '0.0.0.0/0' or prefixlen == 0"),
+    "host": ("/32", "a single address: prefixlen == 32"),
+}
+
+
+def _guard_kind(test: ast.AST, truth: bool) -> Optional[str]:
+    """'/0' | '/32' when the atomic condition (with its polarity) pins the network to that size."""
+    if not isinstance(test, ast.Compare) or len(test.ops) != 1:
+        return None
+    op = test.ops[0]
+    l, r = test.left, test.comparators[0]
+    if isinstance(l, ast.Constant):
+        l, r = r, l
+    if not isinstance(r, ast.Constant):
+        return None
+    eq = (isinstance(op, ast.Eq) and truth) or (isinstance(op, ast.NotEq) and not truth)
+    if not eq:
+        return None
+    ls = src(l)
+    if r.value == "0.0.0.0/0" and ls.startswith("str(") and "ipnet" in ls:
+        return "/0"
+    if ls.endswith(".prefixlen") and "ipnet" in ls:
+        if r.value == 0:
+            return "/0"
+        if r.value == 32:
+            return "/32"
+    return None
+
+
+def classification_guards(ctx: Ctx, rep: Report, rid: str = "R01.6") -> None:
+    """An address is typed 'any' only when its network is pinned to /0 and 'host' only when pinned to /32."""
+    rep.rule(rid)
+    n = 0
+    for cn in ("AddressBase", "Address", "AddressAg"):
+        cls = ctx.cls(cn)
+        for f in cls.all_funcs():
+            cfg = ctx.cfg(f)
+            for node in cfg.live:
+                if not (node.kind == "stmt" and isinstance(node.ast, ast.Assign) and isinstance(node.ast.value, ast.Constant) and any(isinstance(t, ast.Attribute) and src(t) == "self._type" for t in node.ast.targets)):
+                    continue
+                lit = node.ast.value.value
+                if lit not in TYPE_GUARDS:
+                    continue
+                n += 1
+                rep.instance()
+                want, words = TYPE_GUARDS[lit]
+                deps = cfg.transitive_control_deps(node)
+                ok = any(c.kind == "cond" and _guard_kind(c.ast, lab == "T") == want for c, lab in deps)
+                why = "guarded by a test of the network size"
+                if not ok:
+                    # classifier functions that build the wildcard from a literal mask
+                    for x in own_nodes(f.node):
+                        if isinstance(x, (ast.Constant, ast.JoinedStr)):
+                            txt = x.value if isinstance(x, ast.Constant) else "".join(str(v.value) for v in x.values if isinstance(v, ast.Constant))
+                            if isinstance(txt, str):
+                                if want == "/0" and txt.strip() == "0.0.0.0 255.255.255.255":
+                                    ok, why = True, "the wildcard is the literal 0.0.0.0 255.255.255.255"
+                                if want == "/32" and txt.endswith(" 0.0.0.0") and isinstance(x, ast.JoinedStr):
+                                    ok, why = True, "the wildcard is built with the literal mask 0.0.0.0"
+                if ok:
+                    rep.ok(f"{f.qualname}: _type = {lit!r}", why, where=where(f, node.ast))
+                else:
+                    conds = [snippet(c.ast, 40) + ("" if lab == "T" else " (false)") for c, lab in deps if c.kind == "cond"]
+                    rep.violation(f.qualname, f"_type = {lit!r} under [{'; '.join(conds) or 'no condition'}]", f"the address is typed {lit!r} without a test that pins it to {words}: other networks render as {lit!r}", where(f, node.ast), inp="0.0.0.0 0.255.255.255 (a /8 based at zero) parsed and rendered")
+    rep.floor(8, "stores of the address type 'any'/'host'")
+    # log keywords
+    rep.instance()
+    import json as _json
+    import os as _os
+
+    refp = _os.path.join(_os.path.dirname(_os.path.dirname(_os.path.abspath(__file__))), "reference_names.json")
+    with open(refp, "r", encoding="utf-8") as fh:
+        want_logs = set(_json.load(fh)["log_keywords"])
+    logs = set(ctx.folder.const("option", "LOGS"))
+    if logs == want_logs:
+        rep.ok("option.LOGS", f"{sorted(logs)} = Cisco's logging keywords (everything else in the option text is a packet-matching flag)", where="cisco_acl/option.py")
+    else:
+        rep.violation("option.LOGS", str(sorted(logs)), f"the log keywords are {sorted(want_logs)}: a missing keyword is classified as a packet-matching flag, an extra one hides a flag from the cover tests", "cisco_acl/option.py", inp="permit tcp any any log-input")
+
+
+def path_assigned(ctx: Ctx, f: Func, cls: Class, path, memo, symenv=None) -> Set[str]:
+    """Attributes of self assigned along one path of f (direct stores, setters, and the must-assign sets of
+    methods invoked on self)."""
+    from .c17 import NEVER_RETURNS, _must_assign
+
+    out: Set[str] = set()
+    self_name = f.params[0] if f.params else "self"
+    for node, lab in path:
+        if node.ast is None or node.kind != "stmt":
+            continue
+        st = node.ast
+        if isinstance(st, (ast.Assign, ast.AnnAssign, ast.AugAssign)):
+            for t in st.targets if isinstance(st, ast.Assign) else [st.target]:
+                if isinstance(t, ast.Attribute) and src(t.value) == self_name and (not isinstance(st, ast.AnnAssign) or st.value is not None):
+                    stt = cls.lookup_setter(t.attr)
+                    if stt is not None and stt is not f:
+                        r_ = _must_assign(ctx, stt, cls, memo, 0, symenv)
+                        if r_ is NEVER_RETURNS:
+                            return NEVER_RETURNS
+                        out |= r_
+                    else:
+                        out.add(t.attr)
+        for x in ast.walk(st):
+            if isinstance(x, ast.Call) and isinstance(x.func, ast.Attribute):
+                callee = None
+                if src(x.func.value) == self_name:
+                    callee = cls.lookup_method(x.func.attr)
+                elif src(x.func.value) == "super()" and f.cls in cls.mro:
+                    for c in cls.mro[cls.mro.index(f.cls) + 1 :]:
+                        if x.func.attr in c.methods:
+                            callee = c.methods[x.func.attr]
+                            break
+                if callee is not None and callee is not f:
+                    r_ = _must_assign(ctx, callee, cls, memo, 0, symenv)
+                    if r_ is NEVER_RETURNS:
+                        return NEVER_RETURNS
+                    out |= r_
+    return out
+
+
+def setter_completeness(ctx: Ctx, rep: Report, rid: str = "R01.7", platforms=("ios", "nxos")) -> None:
+    """Every normal path of a `line` setter assigns the same set of attributes (no field keeps the previous line's value)."""
+    from ..pathsem import feasible
+
+    rep.rule(rid)
+    memo: Dict = {}
+    n = 0
+    for cls, plat in [(c, p_) for c in ctx.prog.classes.values() for p_ in platforms]:
+        st = cls.lookup_setter("line")
+        if st is None or cls.name in ("Base", "AddressBase", "AceBase"):
+            continue
+        n += 1
+        symenv = {"self._platform": plat, "self.platform": plat}
+        cfg = ctx.cfg(st)
+        per_path = []
+        for p in function_paths(cfg):
+            if p.raises or feasible(p, ctx.folder, st, symenv) is False:
+                continue
+            pa = path_assigned(ctx, st, cls, p.nodes, memo, symenv)
+            from .c17 import NEVER_RETURNS as _NR
+
+            if pa is _NR:
+                continue  # a callee on this path always raises on this platform
+            per_path.append((p, pa))
+        allattrs: Set[str] = set()
+        for p, a in per_path:
+            allattrs |= a
+        rep.instance()
+        bad = [(p, a) for p, a in per_path if a and a != allattrs]
+        if not per_path:
+            continue
+        if bad:
+            p, a = bad[0]
+            atoms = "; ".join(f"{snippet(t, 30)}={'T' if tr else 'F'}" for t, tr in p.atoms) or "unconditional"
+            rep.violation(st.qualname, f"{cls.name} on {plat}: path [{atoms}] leaves {sorted(allattrs - a)} unassigned", "a normally returning path of the line setter does not assign every attribute the other paths assign: after a re-parse the object mixes the new line with the previous one", where(st), inp="assign a line of another kind to an existing object (e.g. extended over standard)")
+        else:
+            rep.ok(f"{cls.name}.line setter ({plat})", f"every normal path assigns {sorted(allattrs)}", where=where(st))
+    rep.floor(18, "concrete line setters x platforms")
+
+
 def run(ctx: Ctx, rep: Report, tier: str) -> None:
+    classification_guards(ctx, rep)
+    setter_completeness(ctx, rep)
     orders = r01_1(ctx, rep)
     r01_2(ctx, rep, orders)
     normalise_first(ctx, rep)
